@@ -217,4 +217,72 @@ def acceptsAll (g : Digraph) : List Op → List Ans → Bool
 def Digraph.ofEdges (nodes : List Nat) (edges : List (Nat × Nat)) : Digraph :=
   edges.foldl (fun g e => g.addEdge e.1 e.2) (addNodes nodes Digraph.empty)
 
+/-! ### values handed to the caller: provenance and caller-side edits
+
+The Go API hands out `cardinality.Duplex` bitmaps, which are mutable. Whether a caller editing a value it was
+given can change later answers depends on whether that value is FRESH (allocated for the caller) or an alias
+of the cache's own state. The model records this as a provenance; which provenance each Go return site has is
+extracted from algo/*.go on every run (`Generated.C15Fresh`) and checked in Props/C15 (`results_fresh_fact`). -/
+
+inductive Prov where
+  /-- allocated for this call (`cardinality.NewBitmap64…`, `.Clone()`, or the caller's own accumulator) -/
+  | fresh
+  /-- the cache's own membership bitmap of component `ci` (what `ReachSliceOf…` hands out, documented read-only) -/
+  | members (ci : Nat)
+deriving Repr, DecidableEq, Inhabited
+
+/-- what a caller-side edit `f` of a value with provenance `p` does to the cache's own state -/
+def RC.callerEdit (rc : RC) (p : Prov) (f : List Nat → List Nat) : RC :=
+  match p with
+  | .fresh => rc
+  | .members ci => { rc with cg := { rc.cg with comps := rc.cg.comps.set ci (f (membersOf rc.cg.comps ci)) } }
+
+/-- provenance the model assigns to the results of the public entry points (by Go function name) -/
+def modelProvFresh : String → Bool
+  | "ReachOfComponentContainingMember" => true
+  | "ReachSliceOfComponentContainingMember" => false
+  | _ => true
+
+/-- a caller script: public calls interleaved with edits of every FRESH value received so far
+(results of `ReachOf…`, accumulators passed to `OrReach`/`XorReach`) -/
+inductive OpM where
+  | call (o : Op)
+  | editFresh (f : List Nat → List Nat)
+
+def callsOf : List OpM → List Op
+  | [] => []
+  | .call o :: os => o :: callsOf os
+  | .editFresh _ :: os => callsOf os
+
+def RC.runOpsM : RC → List OpM → Option (List Ans)
+  | _, [] => some []
+  | rc, .editFresh f :: os => RC.runOpsM (rc.callerEdit .fresh f) os
+  | rc, .call o :: os =>
+    match rc.step o with
+    | none => none
+    | some (rc', a) =>
+      match RC.runOpsM rc' os with
+      | none => none
+      | some as => some (a :: as)
+
+/-- the cache that never stores anything (the "no cache" reference) -/
+def nullCache : CacheI Unit := { get := fun s _ => (s, none), put := fun s _ _ => s }
+
+/-- component reach set computed WITHOUT any cache (fresh DFS every time) -/
+def refReach (cg : CompGraph) (c : Nat) (d : Dir) : Nat :=
+  match reachDFS nullCache (cg.dg.adj d) true (dfsFuel cg.dg.nodes.length) () c with
+  | some (_, r) => r
+  | none => 0
+
+/-- the answer of one public call computed without any cache and without any history -/
+def refAns (g : Digraph) (cg : CompGraph) : Op → Ans
+  | .canReach u v d => .bool (expectCanReach g u v d)
+  | .reach u d => .set (expectReach g u d)
+  | .reachSlice u d =>
+    match lookup cg.lookup u with
+    | none => .slices none
+    | some c => .slices (some ((bitsBelow (refReach cg c d) cg.comps.length).map (membersOf cg.comps)))
+  | .orReach u d dup => .set (expectOrReach g u d dup)
+  | .xorReach u d dup => .set (expectXorReach g u d dup)
+
 end Dawgs.C15
